@@ -2,6 +2,7 @@ import FFVerif.Props.C14
 import FFVerif.Pins.pinFullFromPartial
 import FFVerif.Pins.pinExpand
 import FFVerif.Pins.pinBasisArrayFinalize
+import FFVerif.Pins.C14_basis_source_shape
 #print axioms FFVerif.C14.pauli1_orthoHerm
 #print axioms FFVerif.C14.pauli1_complete
 #print axioms FFVerif.C14.kron_orthoHerm
@@ -39,7 +40,7 @@ import FFVerif.Pins.pinBasisArrayFinalize
 #print axioms FFVerif.C14.fromPartial_rejects_nonorthonormal
 #print axioms FFVerif.C14.fromPartial_rejects_nontraceless
 #print axioms FFVerif.C14.fromPartialGate_ok
-#print axioms FFVerif.C14.basis_source_shape
 #print axioms FFVerif.Pins.pinFullFromPartial
 #print axioms FFVerif.Pins.pinExpand
 #print axioms FFVerif.Pins.pinBasisArrayFinalize
+#print axioms FFVerif.C14.basis_source_shape
